@@ -44,6 +44,12 @@ PROPS = {
         "rule": FW_RULE % "at least one action was returned (heavy-tailed and huge distributions incl. NaN/inf start and max, batches of 0..16 events, machines reaching END via events, LimitReached, CounterZero and Signal)",
         "assumptions": ["virtual clock (1 tick = 1 microsecond) for the 24 h bound"],
     },
+    "C07": {
+        "sub": "fw",
+        "n": {"quick": 4000, "thorough": 300000},
+        "coq_sample": {"quick": 20, "thorough": 200},
+        "rule": FW_RULE % "a limit was decremented (scenario class: 1-3 machines whose SendPadding/BlockOutgoing/UpdateTimer actions carry constant or sampled limits 0..5; calls of 1-2 events interleaving completions for the right machine, other machines and unknown ids with self-transitions, state changes and CounterZero round trips)",
+    },
     "C09": {
         "sub": "fw",
         "n": {"quick": 4000, "thorough": 300000},
